@@ -247,26 +247,19 @@ Proof. vm_compute. repeat split; reflexivity. Qed.
 
 (* ------------------------------------------------------------------ where the quota comes from *)
 (* DPPEnv.__init__ :  generator = DPPGenerator(generator_params...) ; self.max_decaps = self.generator.max_decaps
-   MDPPEnv.__init__:  super().__init__(kwargs...)            -- generator / generator_params are NOT passed on, so
-                                                               DPPEnv builds a default DPPGenerator() (max_decaps = 20)
-                      self.generator = MDPPGenerator(generator_params...)   -- self.max_decaps is not refreshed *)
+   MDPPEnv.__init__:  super().__init__(kwargs...)   -- builds a default DPPGenerator() (max_decaps = 20) first,
+                      self.generator = MDPPGenerator(generator_params...)
+                      self.max_decaps = self.generator.max_decaps       -- refreshed from its own generator
+   (before the repair "fix: MDPPEnv takes max_decaps ... from its own generator" the last line was missing and the
+    env kept the default 20: recorded as fixed in known_findings.json) *)
 Definition dpp_generator_default_max_decaps : Z := 20.
 Definition dpp_env_max_decaps (generator_max_decaps : Z) : Z := generator_max_decaps.
-Definition mdpp_env_max_decaps (generator_max_decaps : Z) : Z := dpp_env_max_decaps dpp_generator_default_max_decaps.
+Definition mdpp_env_max_decaps (generator_max_decaps : Z) : Z :=
+  let inherited := dpp_env_max_decaps dpp_generator_default_max_decaps in   (* value left by DPPEnv.__init__ *)
+  let refreshed := generator_max_decaps in                                    (* overwritten by MDPPEnv.__init__ *)
+  refreshed.
 
 Theorem dpp_env_quota_is_generator_quota g : dpp_env_max_decaps g = g.
 Proof. reflexivity. Qed.
-Theorem mdpp_env_quota_is_default g : mdpp_env_max_decaps g = 20.
+Theorem mdpp_env_quota_is_generator_quota g : mdpp_env_max_decaps g = g.
 Proof. reflexivity. Qed.
-(* "the required number of decaps" (the generator's max_decaps) is not what MDPPEnv enforces *)
-Theorem mdpp_env_quota_refuted : exists g, 1 <= g /\ mdpp_env_max_decaps g <> g.
-Proof. exists 2. split; [lia | vm_compute; discriminate]. Qed.
-(* consequence on an episode: asked for 2 decaps, the env is not done after 3 *)
-Theorem mdpp_quota_episode_refuted : exists (g : Z) I as_ s,
-  1 <= g /\ md_q I = mdpp_env_max_decaps g /\ mdpp_wf I /\ mdpp_run I (mdpp_reset I) as_ = Some s /\
-  g < Z.of_nat (length as_) /\ d_done s = false.
-Proof.
-  exists 2, {| md_probe := [false; false; false; true; false; false; false; false; true];
-               md_avail := [true; false; true; false; false; true; true; false; false]; md_q := 20 |}, [6; 0; 2]%nat.
-  eexists. vm_compute. repeat split; try reflexivity; discriminate.
-Qed.
